@@ -68,6 +68,15 @@ def variants(recs, rng, n_each):
             continue
         out.append(dict(r, mates=[rng.choice(mates)], molid=rng.choice([[1], [1, 0]]), cad=rng.choice([None, CADENCES[0]]), variant="batch"))
     free = [r for r in pool if not any(r["g"]) and any(any(p) for p in r["hist"][0]["v"])]
-    for r in rng.sample(free, min(n_each, len(free))):
-        out.append(dict(r, com=[rng.choice(["linear", "angular"]), rng.choice([1, 2])], shift=[3.0, -2.0, 1.0], variant="com"))
+    for n, r in enumerate(rng.sample(free, min(n_each, len(free)))):
+        c = dict(r, com=[rng.choice(["linear", "angular"]), rng.choice([1, 2])], shift=[3.0, -2.0, 1.0], variant="com")
+        if n % 2:
+            # a batch: every molecule keeps its own kinetic energy across a removal
+            mates = [m for m in free if m is not r and m["np"] == r["np"] and m["k"] == r["k"] and len(m["hist"]) == len(r["hist"]) and m["hist"][0]["v"] != r["hist"][0]["v"]]
+            if mates:
+                c["mates"] = [rng.choice(mates)]
+        out.append(c)
+    # the engine object / the molecule object served another run before
+    for r in rng.sample(pool, min(n_each, len(pool))):
+        out.append(dict(r, warm=rng.choice(["md", "mol"]), variant="reuse"))
     return out
